@@ -401,20 +401,27 @@ def concatCols (axis1 inner : Bool) : List (List Name) → List Name
 def concatDropped (axis1 : Bool) (columns f : List Name) : Bool :=
   axis1 && (f.filter (columns.contains ·)).isEmpty
 
-/-- … and the projection put on an input that stays: none when it keeps all its columns -/
-def concatChild (columns f : List Name) : Option Sel :=
+/-- the columns an input with columns `f` keeps: the requested ones it has; when rows are stacked (`axis=0`) and it
+    has none of them it keeps its first column — it still contributes its rows, as missing values that decide the
+    dtypes of the result, so the new Concat's schema has to be derived from a non-empty frame (D85) -/
+def concatKeepCols (axis1 : Bool) (columns f : List Name) : List Name :=
   let cf := f.filter (columns.contains ·)
+  if !axis1 && cf.isEmpty then f.take 1 else cf
+
+/-- … and the projection put on an input that stays: none when it keeps all its columns -/
+def concatChild (axis1 : Bool) (columns f : List Name) : Option Sel :=
+  let cf := concatKeepCols axis1 columns f
   if sortKeep cf = sortKeep f then none else some (.many cf)
 
 /-- `Concat._simplify_up` (2-dim inputs) -/
 def concat (axis1 inner : Bool) (frames : List (List Name)) (p : Parent) (deps : List Dep) : Option Rw :=
   let columns := (detProj p deps []).toList
-  if frames.all (fun f => decide (sortKeep (f.filter (columns.contains ·)) = sortKeep f)) then none
+  if frames.all (fun f => decide (sortKeep (concatKeepCols axis1 columns f) = sortKeep f)) then none
   else
     let kept := frames.filter (fun f => !concatDropped axis1 columns f)
-    let newFrames := kept.map (fun f => f.filter (columns.contains ·))
+    let newFrames := kept.map (concatKeepCols axis1 columns)
     let keep := !(decide (concatCols axis1 inner newFrames = p.operand.toList) && !p.ndim1)
-    some { childs := frames.map (concatChild columns), keep := keep,
+    some { childs := frames.map (concatChild axis1 columns), keep := keep,
            dropped := frames.map (concatDropped axis1 columns) }
 
 /-! ### Column semantics (what the rules must preserve)
